@@ -151,6 +151,8 @@ def ok_argument(tu, f, arg):
 
 def c16c(ctx, tu):
     """Who touches the reporter objects."""
+    # 'the installed reporter' is one per process, not one per thread
+    lib.process_wide_state(ctx, tu, "C16.c.global", [A["reporter_obj"], A["ok_reporter_obj"]])
     for role, sink, nsend in (("reporter_obj", "send", 1), ("ok_reporter_obj", "sendOk", 1)):
         users = {}
         for f in tu.fns.values():
